@@ -68,7 +68,7 @@ def run_property(pid, tier, seed):
         if not st['ok']:
             harness_errors.append('selftest: ' + st['detail'])
             raise _Abort()
-        cov['traces_validated_against_impl'] += st.get('validated', 0)
+        cov['shim_vs_library_comparisons'] = st.get('validated', 0)
 
         h = importlib.import_module(f'harness.{pid}')
         meta = h.META
@@ -205,6 +205,32 @@ def run_property(pid, tier, seed):
         cov['solver_time_s'] = round(z3t, 2)
         cov['cpu_s'] = round(cpu, 1)
         cov['queries'] = n_z3
+
+        # -------------------------------------------------- confirmed conditions vs the unshimmed real code
+        # A sample of conditions that the solver confirmed for *all* inputs is run concretely (real numpy / pickle / threads,
+        # shims off) on two pinned input vectors; a failure there means a shim or the harness misrepresents the real code.
+        import random as _random
+        confirmed = [idx for idx in sorted(results) if results[idx]['msgs'] and all(m[0] == 'CONFIRMED' for m in results[idx]['msgs'])]
+        _random.Random(seed).shuffle(confirmed)
+        sample_idx = confirmed[:int(os.environ.get('VERIF_CONCRETE_SAMPLE', '24'))]
+        if sample_idx:
+            from concurrent.futures import ThreadPoolExecutor
+            vecs = {}
+            for idx in sample_idx:
+                fam, sel = cond_info[idx]
+                vecs[idx] = [[False if t == 'bool' else 0 for _, t in fam.params],
+                             [bool(k % 2) if t == 'bool' else (k % 3) for k, (_, t) in enumerate(fam.params)]]
+            with ThreadPoolExecutor(nproc) as tpe:
+                futs = [(idx, v, tpe.submit(xh.replay_concrete, f'harness.{pid}', cond_info[idx][0].name, list(cond_info[idx][1]), v, REPO, 120))
+                        for idx in sample_idx for v in vecs[idx]]
+                for idx, v, f in futs:
+                    rv, detail = f.result()
+                    if rv in ('holds', 'rejected'):
+                        cov['traces_validated_against_impl'] += 1 if rv == 'holds' else 0
+                    else:
+                        fam, sel = cond_info[idx]
+                        harness_errors.append(f'ENGINE-ARTEFACT: {fam.name}{sel} was confirmed symbolically for all inputs but the unshimmed concrete run on {v} '
+                                              f'{rv}: {detail[-300:]}')
 
         # -------------------------------------------------- other engines (E2 BMC / E3 lemmas), harness-specific
         if hasattr(h, 'extra'):
